@@ -205,6 +205,131 @@ def gen_cluster_case(rng, tier):
                 index_name=rng.choice([None, None, None, 'frame']), kinds=kinds)
 
 
+# ---- frames that fit into a box about one separation wide ---------------------
+# Blind spot closed here: a frame all of whose features lie in an axis-aligned box with every side shorter than the
+# separation is NOT thereby one cluster -- features near opposite corners are up to sqrt(ndim) separations apart.  Any
+# shortcut keyed on the frame's per-axis extent (instead of pairwise Euclidean distances) goes wrong exactly there,
+# and the older generators (lattice unit >= 1/2, frames much wider than the separation) hardly ever produce such a frame.
+def axis_seps(c):
+    """separation per coordinate of the stored points (stored order is x, y, z; the separation tuple follows
+    pos_columns, whose default is z, y, x)"""
+    ndim = c['ndim']
+    ss = [Fraction(s) for s in c['sep']] if isinstance(c['sep'], list) else [Fraction(c['sep'])] * ndim
+    return ss if c['pos_columns'] else ss[::-1]
+
+
+def frame_profile(pts, seps):
+    """exact: (every axis extent < separation, some axis extent == separation, number of connected components,
+    some pair exactly at the separation)"""
+    P = [[F(v) / seps[k] for k, v in enumerate(p)] for p in pts]
+    n = len(P)
+    ext = [max(p[k] for p in P) - min(p[k] for p in P) for k in range(len(seps))]
+    root = list(range(n))
+
+    def find(i):
+        while root[i] != i:
+            root[i] = root[root[i]]
+            i = root[i]
+        return i
+    exact = False
+    for i in range(n):
+        for j in range(i + 1, n):
+            d2 = sum((a - b) ** 2 for a, b in zip(P[i], P[j]))
+            exact = exact or d2 == 1
+            if d2 <= 1:
+                root[find(i)] = find(j)
+    return all(e < 1 for e in ext), any(e == 1 for e in ext), len({find(i) for i in range(n)}), exact
+
+
+def gen_compact_frame(rng, ndim, seps):
+    """features on a dyadic lattice inside a box whose sides are just below / exactly / just above the separation
+    (per axis), concentrated in the corners of that box"""
+    smin = min(seps)
+    dens = [d for d in (1, 2, 4, 8) if smin * d >= 4] or [8]
+    den = rng.choice(dens)
+    nk = [s * den for s in seps]                               # separation in lattice units
+    mk = [int(math.ceil(x)) - 1 for x in nk]                   # largest lattice extent strictly below it
+    mode = rng.choice(['below', 'below', 'below', 'smaller', 'smaller', 'exact-one', 'exact-all', 'above-one'])
+    if mode == 'below':
+        e = list(mk)
+    elif mode == 'smaller':
+        e = [rng.randint(max(1, int(math.ceil(Fraction(7, 10) * x))), max(1, m)) for x, m in zip(nk, mk)]
+    else:
+        e = list(mk)
+        axes = range(ndim) if mode == 'exact-all' else [rng.randrange(ndim)]
+        for k in axes:
+            if mode == 'above-one':
+                e[k] = mk[k] + rng.choice([1, 2])
+            elif nk[k].denominator == 1:
+                e[k] = int(nk[k])                              # extent exactly the separation: not "shorter than"
+    e = [max(1, v) for v in e]
+    org = [rng.randint(-20 * den, 20 * den) for _ in range(ndim)]
+    corner = lambda bits: [e[k] if b else 0 for k, b in enumerate(bits)]
+    opposite = lambda bits: [1 - b for b in bits]
+    inward = lambda q, j: [min(e[k], max(0, v + (rng.randint(0, j) if v == 0 else -rng.randint(0, j)))) for k, v in enumerate(q)]
+    kind = rng.choice(['diag pair', 'diag pair', 'dimer + far feature', 'dimer + far feature', 'corner groups', 'corner groups',
+                       'face diagonal', 'random in box', 'bridged diagonal'])
+    b0 = [rng.randrange(2) for _ in range(ndim)]
+    jit = max(1, min(e) // 5)
+    if kind == 'diag pair':
+        L = [corner(b0), corner(opposite(b0))]
+    elif kind == 'dimer + far feature':
+        a = corner(b0)
+        L = [a, inward(a, jit), inward(corner(opposite(b0)), rng.choice([0, 0, jit]))]
+        if rng.random() < 0.3:
+            L.append(inward(a, jit))
+    elif kind == 'corner groups':
+        L = [corner(b0), corner(opposite(b0))]                  # extent reached on every axis
+        for _ in range(rng.randint(1, 3)):
+            q = corner([rng.randrange(2) for _ in range(ndim)])
+            L += [inward(q, jit) for _ in range(rng.randint(1, 3))]
+    elif kind == 'face diagonal':
+        # full extent along two axes only (distance about sqrt(2) separations), the others flat or nearly so
+        i, j = rng.sample(range(ndim), 2)
+        a = [rng.randint(0, jit) for _ in range(ndim)]
+        b = list(a)
+        a[i], a[j] = 0, e[j] * b0[j]
+        b[i], b[j] = e[i], e[j] * (1 - b0[j])
+        L = [a, b] + ([inward(a, jit)] if rng.random() < 0.5 else [])
+    elif kind == 'random in box':
+        L = [corner(b0), corner(opposite(b0))] + [[rng.randint(0, v) for v in e] for _ in range(rng.randint(0, 4))]
+    else:
+        # the same corners joined by a chain of features through the middle of the box: really one cluster (or nearly)
+        a, b = corner(b0), corner(opposite(b0))
+        m = rng.choice([1, 2, 3])
+        L = [a, b] + [[int(round(a[k] + (b[k] - a[k]) * t / (m + 1.0))) for k in range(ndim)] for t in range(1, m + 1)]
+        if rng.random() < 0.4:
+            L.pop(rng.randrange(2, len(L)))
+    rng.shuffle(L)
+    return 'compact box (%s; %s)' % (kind, mode), [[(org[k] + v) / float(den) for k, v in enumerate(q)] for q in L]
+
+
+def gen_compact_case(rng, tier):
+    ndim = rng.choice([2, 2, 3])
+    if rng.random() < 0.25:
+        sep = [rng.choice(['1', '2', '3', '4', '3/2', '1/2']) for _ in range(ndim)]
+    else:
+        sep = rng.choice(SEPS + ['1', '1/2', '2', '4', '8'])
+    nfr = rng.choice([1, 1, 2, 3, 4])
+    c = dict(ndim=ndim, frames=[], frame_nos=sorted(rng.sample(range(0, 12), nfr)), sep=sep,
+             pos_columns=rng.choice([None, None, ['x', 'y', 'z'][:ndim]]),
+             shuffle=rng.randrange(10 ** 6), with_frame=(nfr > 1 or rng.random() < 0.7),
+             index_name=rng.choice([None, None, None, 'frame']), kinds=[])
+    seps = axis_seps(c)
+    pow2 = all(is_pow2(s) for s in seps)
+    for i in range(nfr):
+        if i > 0 and rng.random() < 0.3:
+            k, p = gen_frame_points(rng, ndim, float(min(seps)), rng.random() < 0.3)     # an ordinary wide frame next to it
+        else:
+            for attempt in range(6):
+                k, p = gen_compact_frame(rng, ndim, seps)
+                if pow2 or not frame_profile(p, seps)[3]:
+                    break                                      # no pair exactly at a separation whose division is inexact
+        c['frames'].append(p)
+        c['kinds'].append(k)
+    return c
+
+
 def cluster_metric(sep, ndim, S):
     ss = [Fraction(s) for s in sep] if isinstance(sep, list) else [Fraction(sep)] * ndim
     a = [s.numerator for s in ss]
@@ -259,8 +384,8 @@ def run_cluster_impl(c):
 
 def cluster_term(c, out):
     ndim = c['ndim']
-    half = any(F(v).denominator > 1 for fr in out for p in fr['pts'] for v in p)
-    S = 2 if half else 1
+    # common lattice scale: the coordinates are dyadic floats (units 1, 1/2, 1/4, 1/8), their largest denominator is the lcm
+    S = max([F(v).denominator for fr in out for p in fr['pts'] for v in p] + [1])
     # separation follows pos_columns order, and so do the output points
     w, R2, exact_safe = cluster_metric(c['sep'], ndim, S)
     frs = []
@@ -305,7 +430,14 @@ def eval_cluster(chk, cases, report=True):
         chk.count(('cluster', c), n >= 4 and ncl < n)
         chk.tally('cluster frames=%d' % len(out))
         for k in c.get('kinds', []):
-            chk.tally('cluster frame kind=' + k)
+            chk.tally('cluster frame kind=' + k.split(';')[0] + (')' if ';' in k else ''))
+        seps = axis_seps(c)
+        for fr in c['frames']:
+            compact, touching, ncomp, _ = frame_profile(fr, seps)
+            if len(fr) > 1 and compact:
+                chk.tally('cluster frame inside a box with every side < separation: ' + ('one cluster' if ncomp == 1 else 'SEVERAL clusters (corners farther apart than the separation)'))
+            elif len(fr) > 1 and touching and all(max(F(p[k]) for p in fr) - min(F(p[k]) for p in fr) <= seps[k] for k in range(c['ndim'])):
+                chk.tally('cluster frame inside a box with a side exactly = separation, none longer: %s' % ('one cluster' if ncomp == 1 else 'several clusters'))
         if r != 0:
             chk.violation('cluster:%s' % CL_CODES.get(r, r), 'trackpy.cluster(separation=%s): %s' % (c['sep'], CL_CODES.get(r, r)),
                           dict(kind='cluster', code=r, case=c, impl_output=out))
@@ -753,6 +885,16 @@ def corpus():
         # DESIGN section 4, F9: table whose index is named like the frame column (output of filter_stubs)
         dict(ndim=2, frames=[[[0., 0.], [1., 0.]], [[0., 0.], [5., 5.]]], frame_nos=[0, 1], sep='2', pos_columns=None, shuffle=4, with_frame=True, index_name='frame'),
         dict(ndim=3, frames=[[[0., 0., 0.], [1., 1., 1.], [2., 2., 2.], [2., 2., 4.5]]], frame_nos=[1], sep='2', pos_columns=None, shuffle=6, with_frame=True, index_name=None),
+        # frames inside a box narrower than the separation on every axis that are NOT one cluster: opposite corners of the
+        # box are up to sqrt(ndim) separations apart (2-D diagonal pair, 3-D body diagonal, dimer + far feature next to a
+        # compact frame that really is one cluster, per-axis separation, face diagonal in 3-D)
+        dict(ndim=2, frames=[[[0., 0.], [0.75, 0.75]]], frame_nos=[0], sep='1', pos_columns=None, shuffle=7, with_frame=True, index_name=None),
+        dict(ndim=3, frames=[[[5., 5., 5.], [5.875, 5.875, 5.875]]], frame_nos=[0], sep='1', pos_columns=None, shuffle=8, with_frame=False, index_name=None),
+        dict(ndim=2, frames=[[[10., 10.], [10.125, 10.], [12.75, 12.5]], [[3., 3.], [3.25, 3.125], [3.125, 3.25]]], frame_nos=[0, 1], sep='3', pos_columns=None, shuffle=9, with_frame=True, index_name=None),
+        dict(ndim=2, frames=[[[0., 0.], [3.5, 1.75], [0.5, 0.]]], frame_nos=[4], sep=['4', '2'], pos_columns=['x', 'y'], shuffle=10, with_frame=True, index_name=None),
+        dict(ndim=3, frames=[[[0., 0., 1.], [1.75, 1.75, 1.], [1.75, 0., 1.], [-7., 0., 0.]][:3]], frame_nos=[2], sep='2', pos_columns=None, shuffle=11, with_frame=True, index_name=None),
+        # the same box with a side exactly the separation (boundary of "narrower than"), and a bridged diagonal (one cluster)
+        dict(ndim=2, frames=[[[0., 0.], [2., 1.75]], [[0., 0.], [1.75, 1.75], [0.875, 0.875]]], frame_nos=[0, 3], sep='2', pos_columns=None, shuffle=12, with_frame=True, index_name=None),
     ]
     gr = [
         # two particles: they sit in opposite corners of their own bounding box, the arc vanishes
@@ -787,7 +929,8 @@ def run(chk):
     import time
     ccl, cgr, cgeom = corpus()
     t0 = time.time()
-    eval_cluster(chk, ccl + [gen_cluster_case(rng, chk.tier) for _ in range(200 if q else 1500)])
+    eval_cluster(chk, ccl + [gen_cluster_case(rng, chk.tier) for _ in range(200 if q else 1500)]
+                 + [gen_compact_case(rng, chk.tier) for _ in range(150 if q else 1200)])
     t1 = time.time()
     eval_pairs(chk, [dict(n=5, pairs=[[0, 1], [2, 3], [3, 1]]), dict(n=3, pairs=[[1, 1], [2, 0], [0, 2]])]
                + [gen_pairs_case(rng, chk.tier) for _ in range(200 if q else 1500)])
@@ -810,8 +953,14 @@ def run(chk):
         c, ref, g = kept[0]
         chk.sample(dict(kind='gr', case=c, impl_g=[repr(v) for v in g]))
     chk.sample(dict(kind='cluster', case=ccl[0]))
+    chk.sample(dict(kind='cluster', case=ccl[9]))
     chk.coverage['rule'] = ("cluster: lattice frames (random, chains stepping exactly/just beyond separation, rings, clumps, duplicates, grids, single rows; 1-4 frames, shuffled rows, odd index, "
-                            "isotropic and per-axis separations) through trackpy.cluster, verified monitor on its output; ordered pair lists through Clusters.from_pairs (exact). "
+                            "isotropic and per-axis separations) through trackpy.cluster, verified monitor on its output; "
+                            "plus the compact-box family: frames on a dyadic lattice (unit 1 .. 1/8) that fit into an axis-aligned box whose sides are just below / 70-100% of / exactly / just above "
+                            "the (per-axis) separation, features concentrated in its corners (diagonal pair, dimer + far feature, 2-4 corner groups, 3-D face diagonal, random fill, diagonal bridged "
+                            "by a chain), at random offsets, alone or next to ordinary frames -- such a frame is up to sqrt(ndim) separations across and is usually NOT one cluster although every "
+                            "axis extent is below the separation (tallied per frame from the input by exact arithmetic: 'inside a box with every side < separation: one / SEVERAL clusters'); "
+                            "ordered pair lists through Clusters.from_pairs (exact). "
                             "proximity: lattice sets with duplicates. g(r): lattice sets in 2-D/3-D with particles on walls/corners, default or given boundary/density, with and without edge handling, "
                             "against the Q model fed with independently computed arcs/areas; translation and permutation re-runs. edge corrections: generic float positions incl. on walls, in corners, "
                             "circles larger than the box. non-trivial = cluster case with >=4 features and a merged cluster / >=3 pairs / >=3 points / >=4 particle pairs / measure truncated by the box; distinct by content hash")
